@@ -172,8 +172,11 @@ def run_case(
     late_renames: bool = False,
     yielding_recorder: bool = False,
     prelude: Any = None,
+    warn_mode: str = "always",
 ) -> dict:
     """Build the program with real hypergraph objects, run it, return the canonical observation.
+
+    `warn_mode="error"`: the process treats warnings as errors (python -W error), as test suites and strict deployments do.
 
     `prelude` (async runner only): a zero-argument coroutine function awaited in the SAME task just before the run (its outcome is ignored)."""
     cfg = cfg or {}
@@ -213,7 +216,7 @@ def run_case(
     start_log = len(env.log)
     obs: dict[str, Any]
     with warnings.catch_warnings(record=True) as wlist:
-        warnings.simplefilter("always")
+        warnings.simplefilter(warn_mode)
         try:
             if runner == "sync":
                 result = SyncRunner(cache=cache).run(g, vals, **kwargs)
@@ -248,7 +251,7 @@ def run_case(
             obs = {"status": "failed", "values": [], "error": canon_error(e, env), "raised": True, "pause": None}
         except asyncio.CancelledError as e:  # a BaseException escaping run(): an observation, not a harness failure
             obs = {"status": "failed", "values": [], "error": "base:" + type(e).__name__, "raised": True, "pause": None}
-    obs["warnings"] = sum(1 for w in wlist if "Requested outputs not found" in str(w.message))
+    obs["warnings"] = sum(1 for w in (wlist or []) if "Requested outputs not found" in str(w.message))
     obs["calls"] = [[fid, [[k, enc_val(v)] for k, v in kw.items()]] for fid, kw in env.log[start_log:]]
     if rec is not None:
         obs["events"] = [canon_event(e) for e in rec.events]
